@@ -116,6 +116,14 @@ var fixSigs = [4][]string{
 // regressed (or the record is wrong) and neither the model variant nor the claimed theorems are
 // the right ones — never a green run.
 func checkVariantAgainstKnown(res *lib.Result, flags string) {
+	if flags != "1111" {
+		// the obligations in Props.lean (crash_consistent, restart_ok, next_block_storable,
+		// memory_tracks_disk) are stated for Fixes.all; on any other variant they are not about the
+		// code under test. The model still runs in the probed variant, so that the oracle reports
+		// the concrete failing input of the regression.
+		res.Fatalf("the code under test behaves as variant %s (reset-on-error, drop-snapshot-on-revert, drop-previous-window-on-crossing, "+
+			"init-error-not-cached), the claimed theorems are about 1111: a repair has been undone", flags)
+	}
 	raw, err := os.ReadFile("known/C05.json")
 	if err != nil {
 		if raw, err = os.ReadFile("/verif/known/C05.json"); err != nil {
